@@ -23,7 +23,8 @@ DESCRIPTION = {
 }
 
 TWO53 = 9007199254740992
-JUNK = [None, True, False, 0, 1, -1, TWO53, TWO53 + 1, -TWO53 - 1, 1.5, "", "a", "a.b", "a..b", ".a", "a.", "a.b\n", "a b", "a.#", "A.b", "é.b", "\n",
+HUGE = 1 << 20000       # a CBOR bignum of 2.5 kB; too long for Python's default int -> str conversion (4300 digits)
+JUNK = [None, True, False, 0, 1, -1, TWO53, TWO53 + 1, -TWO53 - 1, HUGE, -HUGE, 1.5, "", "a", "a.b", "a..b", ".a", "a.", "a.b\n", "a b", "a.#", "A.b", "é.b", "\n",
         b"", b"x", b"\xff\xfe", [], [1], ["a"], [None], [[]], [{}], {}, {"a": 1}, {1: 2}, {"a": {"b": []}},
         [{"session": 1, "authid": "a", "authrole": "r"}], [{"session": "x", "authid": "a", "authrole": "r"}], [{"session": 1, "authid": 2, "authrole": "r"}],
         [{"session": 1}], [1, {"session": 1, "authid": "a", "authrole": "r"}], "exact", "prefix", "kill", "cryptobox", "json"]
@@ -162,7 +163,7 @@ def strictness(ctx, msg, cname, key, case, w):
         if v is None:
             continue
         if type(v) != int or v < 0 or v > TWO53:
-            raise Violation(key + "|bad-id-accepted", "%s.%s = %r accepted from %r" % (cname, a, v, brief(w)), case)
+            raise Violation(key + "|bad-id-accepted", "%s.%s = %r accepted from %r" % (cname, a, brief(v), brief(w)), case)
     for a in URI_ATTRS & set(attrs):
         v = attrs[a]
         if v is None:
@@ -199,7 +200,7 @@ def mutate_and_check(ctx, col, cname, base, basedig):
     n_mut = 0
 
     def note(slot, junk, accepted):
-        col.case(True, dig=[cname, slot, repr(junk), basedig], cls=["%s/%s" % (cname, "accepted" if accepted else "rejected"), "junk:" + jtype(junk)])
+        col.case(True, dig=[cname, slot, repr(brief(junk)), basedig], cls=["%s/%s" % (cname, "accepted" if accepted else "rejected"), "junk:" + jtype(junk)])
 
     # the unmutated base must be accepted and faithful
     case0 = {"check": "structured", "cls": cname, "w": base, "slot": "base"}
@@ -233,15 +234,16 @@ def mutate_and_check(ctx, col, cname, base, basedig):
             fixed_point(ctx, m, key, case)
         note("count:%d" % len(w), len(w), m is not None)
     # type code
-    for code in (True, False, None, "1", 1.0, -1, 0, 7, 9, 51, 2 ** 31, [base[0]], b"\x01"):
+    for code in (True, False, None, "1", 1.0, -1, 0, 7, 9, 51, 2 ** 31, HUGE, -HUGE, [base[0]], b"\x01"):
         w = [code] + base[1:]
         case = {"check": "structured", "cls": cname, "w": w, "slot": "typecode"}
         m = parse_both(ctx, w, "C08|typecode", case)
         if m is not None and not (type(code) == int and code in ctx.map):
-            raise Violation("C08|typecode|unknown-code-accepted", "type code %r accepted as %s" % (code, type(m).__name__), case)
+            raise Violation("C08|typecode|unknown-code-accepted", "type code %r accepted as %s" % (brief(code), type(m).__name__), case)
         note("typecode", code, m is not None)
 
     # positions
+    optpos = min([i for i in range(1, len(base)) if isinstance(base[i], dict)] or [-1])      # Options / Details precede the payload in every class
     for pos in range(1, len(base)):
         for junk in JUNK:
             w = list(base)
@@ -256,7 +258,7 @@ def mutate_and_check(ctx, col, cname, base, basedig):
                 # faithfulness at the mutated slot (payload positions excluded: contents are don't-care, absent==empty)
                 if pos < len(m1) and not isinstance(base[pos], (list, dict)) and not isinstance(junk, (list, dict)):
                     if not W.deep_eq(m1[pos], junk) and not (isinstance(junk, (bytes, str)) and isinstance(base[-1], (bytes,)) and pos == len(base) - 1):
-                        raise Violation(key + "|slot-altered", "input slot %d = %r, re-marshalled %r" % (pos, junk, m1[pos]), case)
+                        raise Violation(key + "|slot-altered", "input slot %d = %r, re-marshalled %r" % (pos, brief(junk), brief(m1[pos])), case)
             note(slot, junk, m is not None)
             n_mut += 1
         # option / detail keys
@@ -278,13 +280,17 @@ def mutate_and_check(ctx, col, cname, base, basedig):
                         # black-/whitelists: an accepted list value (the empty list included: "nobody") must survive re-marshalling
                         if k in W.STRICT_LISTS and k in KNOWN_OPTS[cname] and isinstance(junk, list) and pos < len(m1) and isinstance(m1[pos], dict):
                             if k not in m1[pos] or not W.deep_eq(W.norm(m1[pos][k]), W.norm(junk)):
-                                raise Violation("C08|%s|%s|accepted-option-lost-on-remarshal" % (cname, slot), "input %s=%r, re-marshalled options %r" % (k, junk, brief(m1[pos])), case)
+                                raise Violation("C08|%s|%s|accepted-option-lost-on-remarshal" % (cname, slot), "input %s=%r, re-marshalled options %r" % (k, brief(junk), brief(m1[pos])), case)
                         if k in OPT_TYPE and k in KNOWN_OPTS[cname]:
                             attr = ATTR_OF_KEY.get(k, k)
                             attrs = W.public_attrs(m)
                             if attr in attrs and junk is not None and type(junk) != OPT_TYPE[k] and W.deep_eq(attrs[attr], junk) and not _allowed_alt(cname, k, junk):
                                 raise Violation("C08|%s|%s|wrong-type-accepted" % (cname, slot), "option %s=%r (%s) retained in accepted message, expected wire type %s" % (
-                                    k, junk, jtype(junk), OPT_TYPE[k].__name__), case)
+                                    k, brief(junk), jtype(junk), OPT_TYPE[k].__name__), case)
+                            # ... and a message carrying a wrongly typed known option is not accepted with the value silently dropped either
+                            if junk is not None and type(junk) != OPT_TYPE[k] and not _allowed_alt(cname, k, junk) and _read_in_this_form(cname, k, w) and pos == optpos:
+                                raise Violation("C08|%s|%s|wrong-type-accepted|dropped" % (cname, slot), "message with option %s=%r (%s, expected wire type %s) was accepted; parsed attribute %r" % (
+                                    k, brief(junk), jtype(junk), OPT_TYPE[k].__name__, brief(attrs.get(attr, "<no attribute>"))), case)
                     note(slot, junk, m is not None)
                     n_mut += 1
     # role announcements (HELLO / WELCOME): every feature of every admissible role is a boolean per the WAMP spec; any other type, and feature names
@@ -312,7 +318,7 @@ def mutate_and_check(ctx, col, cname, base, basedig):
                     if m is not None:
                         fixed_point(ctx, m, key, case)
                         if feat in ROLE_FEATURES[role] and junk is not None and type(junk) != bool:
-                            raise Violation("C08|%s|%s|wrong-type-accepted" % (cname, slot), "role feature %s.%s=%r (%s) accepted, the WAMP spec types it as a boolean" % (role, feat, junk, jtype(junk)), case)
+                            raise Violation("C08|%s|%s|wrong-type-accepted" % (cname, slot), "role feature %s.%s=%r (%s) accepted, the WAMP spec types it as a boolean" % (role, feat, brief(junk), jtype(junk)), case)
                     note(slot, junk, m is not None)
                     n_mut += 1
     return n_mut
@@ -338,6 +344,14 @@ PAYLOAD_POS = {"Error": 5, "Publish": 4, "Event": 4, "Call": 4, "Result": 3, "In
 
 def _allowed_alt(cname, k, junk):
     return False
+
+
+def _read_in_this_form(cname, k, w):
+    """enc_* options are only read (and typed) when the message is in payload-transparency form (opaque bytes at the payload position)"""
+    if k in ("enc_algo", "enc_key", "enc_serializer"):
+        ppos = PAYLOAD_POS.get(cname)
+        return ppos is not None and len(w) > ppos and type(w[ppos]) == bytes
+    return True
 
 
 def _strip(l):
@@ -464,13 +478,18 @@ def replay(col, case):
             slot = str(c.get("slot", ""))
             if slot.startswith("opt:"):
                 k = slot[4:]
+                first = True
                 for el in w:
                     if isinstance(el, dict) and k in el and k in OPT_TYPE:
                         junk = el[k]
                         attrs = W.public_attrs(m)
                         attr = ATTR_OF_KEY.get(k, k)
                         if attr in attrs and junk is not None and type(junk) != OPT_TYPE[k] and W.deep_eq(attrs[attr], junk):
-                            raise Violation("C08|%s|%s|wrong-type-accepted" % (cname, slot), "option %s=%r retained" % (k, junk), c)
+                            raise Violation("C08|%s|%s|wrong-type-accepted" % (cname, slot), "option %s=%r retained" % (k, brief(junk)), c)
+                        if first and k in KNOWN_OPTS[cname] and junk is not None and type(junk) != OPT_TYPE[k] and _read_in_this_form(cname, k, w):
+                            raise Violation("C08|%s|%s|wrong-type-accepted|dropped" % (cname, slot), "message with option %s=%r was accepted" % (k, brief(junk)), c)
+                    if isinstance(el, dict):
+                        first = False
     elif kind == "fuzz-octets":
         _fuzz_octets_make(col)(bytes([["json", "msgpack", "cbor", "ubjson"].index(c["ser"]) | (4 if c["batched"] else 0)]) + c["data"])
     elif kind == "octets":
